@@ -32,14 +32,24 @@ package socks
 //@   modifies ghostbytes(conn, "written")
 //@   ensures reply: ghostbytes(conn, "written") == seq(5, 8, 0, 1, 0, 0, 0, 0, 0, 0)
 
-//@ func SubNegotiationClient(conn net.Conn) (h NegotiationHeader, err error)
-//@   requires nonnil: conn != nil
-//@   modifies ghostbytes(conn, "consumed")
-// C15: the request is read field by field as RFC 1928 lays it out (st(k) = k-th byte of the stream):
-// VER CMD RSV ATYP, then 4 / [len] len / 16 address bytes, then the port, high byte first.
+// st(r, k) = k-th byte of the stream behind reader r
 //@ spec st(r, k) = uf_stream(r, k)
 //@ spec alen(r) = ite(st(r, 3) == 1, 4, ite(st(r, 3) == 4, 16, st(r, 4)))
 //@ spec aoff(r) = ite(st(r, 3) == 3, 5, 4)
+
+// C15: the method selection message is read byte by byte: VER(=5) NMETHODS and exactly NMETHODS method bytes
+//@ func SubNegotiationClient(conn net.Conn) (h NegotiationHeader, err error)
+//@   requires nonnil: conn != nil
+//@   modifies ghostbytes(conn, "consumed")
+//@   ensures-local head:    err == nil ==> (h.Version == st(reader, 0) && h.Version == 5 && h.NMethods == st(reader, 1) && len(h.Methods) == st(reader, 1))
+//@   ensures-local methods: err == nil ==> forall(k, 0, len(h.Methods), h.Methods[k] == st(reader, 2 + k))
+//@   loop "for NumMethods != 0"
+//@     invariant at: len(header.Methods) + NumMethods == header.NMethods && ghostint(reader, "pos") == 2 + len(header.Methods) && header.Version == st(reader, 0) && header.Version == 5 && header.NMethods == st(reader, 1) && (cap(header.Methods) == 0 || fresh(arrayof(header.Methods)))
+//@     invariant got: forall(k, 0, len(header.Methods), header.Methods[k] == st(reader, 2 + k))
+//@     decreases NumMethods
+
+// C15: the request is read field by field as RFC 1928 lays it out:
+// VER CMD RSV ATYP, then 4 / [len] len / 16 address bytes, then the port, high byte first.
 //@ func ReadSocksHeader(conn net.Conn) (h SocksHeader, err error)
 //@   requires nonnil: conn != nil
 //@   modifies ghostbytes(conn, "consumed")
